@@ -55,7 +55,7 @@ func selftest() int {
 			var buf bytes.Buffer
 			cmd.Stdout, cmd.Stderr = &buf, &buf
 			if err := cmd.Run(); err != nil {
-				fmt.Printf("selftest: %s race=%v GOMAXPROCS=%d: worker failed: %v\n%s\n", e.engine, e.race, procs, err, firstLines(buf.String(), 40))
+				fmt.Printf("selftest: %s race=%v GOMAXPROCS=%d: worker failed: %v\n%s\n", e.engine, e.race, procs, err, firstLines(buf.String(), 400))
 				bad++
 				continue
 			}
